@@ -362,7 +362,7 @@ pub struct CheckDef {
     pub replay: fn(&Value) -> Result<(), Fail>,
     pub journal: bool,
     /// optional hook run once in the driver before the shards (e.g. build steps); Err => exit 2
-    pub pre: Option<fn(Tier) -> Result<(), String>>,
+    pub pre: Option<fn(Tier, u64) -> Result<(), String>>,
 }
 
 pub fn env_seed() -> u64 {
@@ -486,7 +486,7 @@ pub fn driver_main(def: &CheckDef, tier: Tier, seed: u64, evidence_out: Option<S
     let mut notes: Vec<String> = vec![];
 
     if let Some(pre) = def.pre {
-        if let Err(e) = pre(tier) {
+        if let Err(e) = pre(tier, seed) {
             eprintln!("INCONCLUSIVE property={id}: {e}");
             return 2;
         }
@@ -524,6 +524,14 @@ pub fn driver_main(def: &CheckDef, tier: Tier, seed: u64, evidence_out: Option<S
             continue;
         };
         let v: Value = serde_json::from_str(&text).unwrap_or(Value::Null);
+        // a witness recorded for the other feature configuration is replayed by that run
+        #[allow(unexpected_cfgs)]
+        let this_cfg = if cfg!(feature = "extras") { "extras" } else { "default" };
+        if let Some(c) = v["case"]["config"].as_str() {
+            if c != this_cfg {
+                continue;
+            }
+        }
         replayed += 1;
         let res = replay_in_child(id, &v["case"]);
         match (res, k) {
